@@ -1,7 +1,9 @@
 // C01 driver: the 8 implemented inclusion selections of the explicit tree encoding, following the protocol
 // of cli/operations.hh (sanitize; with simulation: UnionDisjointStates, ComputeSimulation(n), SetSimulation).
 // case:   incl <T A> <T B>
-// output: V v0..v7 S <T sanA> <T sanB> <n>      v = 0 | 1 | E<class>
+// output: V v0..v7 R r0 r2 r4 r5 S <T sanA> <T sanB> <n>      v = 0 | 1 | E<class>;  R = the selections without simulation called on the
+//         operands as the caller has them (no preparation by the caller). Operands with the same rule list are built as two copies of one
+//         automaton (shared transition table) with their own final states.
 //   order: up-nosim up-sim down-nonrec-nosim down-nonrec-sim down-rec-nosim down-rec-opt-nosim down-rec-sim down-rec-opt-sim
 #include "common.hh"
 #include <vata/incl_param.hh>
@@ -10,7 +12,8 @@ using namespace vd;
 typedef VATA::ExplicitTreeAut Aut;
 typedef VATA::InclParam IP;
 
-static std::string one(const Aut& a0, const Aut& b0, bool down, bool rec, bool opt, bool sim) {
+// raw = the library is called on the caller's operands as they are (allowed without simulation: CheckInclusion prepares copies itself)
+static std::string one(const Aut& a0, const Aut& b0, bool down, bool rec, bool opt, bool sim, bool raw = false) {
 	try {
 		Aut smaller = a0, bigger = b0;
 		IP ip;
@@ -19,6 +22,7 @@ static std::string one(const Aut& a0, const Aut& b0, bool down, bool rec, bool o
 		ip.SetUseRecursion(rec);
 		ip.SetUseDownwardCacheImpl(opt);
 		ip.SetUseSimulation(sim);
+		if (raw && !sim) return Aut::CheckInclusion(a0, b0, ip) ? "1" : "0";
 		VATA::AutBase::StateType states = VATA::AutBase::SanitizeAutsForInclusion(smaller, bigger);
 		VATA::AutBase::StateDiscontBinaryRelation rel;
 		if (sim) {
@@ -44,13 +48,28 @@ int main() {
 	while (std::getline(std::cin, line)) {
 		guarded([&]() {
 			Toks t(line); t.expect("incl"); TA a = readTA(t); TA b = readTA(t);
-			Aut A = mkAut(a), B = mkAut(b);
+			Aut A, B;
+			if (!a.rules.empty() && !(a.rules < b.rules) && !(b.rules < a.rules)) {
+				// same rule list: the operands are produced as an application would, as two copies of one automaton that differ in their
+				// final states only (copies share the copy-on-write transition table)
+				TA base; base.rules = a.rules; Aut M = mkAut(base);
+				A = Aut(M, true, false); for (U f : a.finals) A.SetStateFinal(f);
+				B = Aut(M, true, false); for (U f : b.finals) B.SetStateFinal(f);
+			} else { A = mkAut(a); B = mkAut(b); }
 			static const bool DOWN[8] = {0,0,1,1,1,1,1,1}, REC[8] = {0,0,0,0,1,1,1,1}, OPT[8] = {0,0,0,0,0,1,0,1}, SIM[8] = {0,1,0,1,0,0,1,1};
 			std::ostringstream os; os << "V";
-			std::string all = forked([&]() { std::ostringstream o; for (int s = 0; s < 8; ++s) o << ' ' << one(A, B, DOWN[s], REC[s], OPT[s], SIM[s]); return o.str(); }, LIMIT_MS);
+			static const int NOSIM[4] = {0, 2, 4, 5};
+			std::string all = forked([&]() { std::ostringstream o; for (int s = 0; s < 8; ++s) o << ' ' << one(A, B, DOWN[s], REC[s], OPT[s], SIM[s]);
+				o << " R"; for (int k = 0; k < 4; ++k) { int s = NOSIM[k]; o << ' ' << one(A, B, DOWN[s], REC[s], OPT[s], false, true); } return o.str(); }, LIMIT_MS);
 			if (all == "@TIMEOUT" || all == "@CRASH" || all == "@EXC") {     // find out which selection it was
 				for (int s = 0; s < 8; ++s) {
 					std::string r = forked([&]() { return one(A, B, DOWN[s], REC[s], OPT[s], SIM[s]); }, LIMIT_MS);
+					os << ' ' << (r == "@TIMEOUT" ? "T" : r == "@CRASH" ? "Ecrash" : r == "@EXC" ? "Enonstd" : r);
+				}
+				os << " R";
+				for (int k = 0; k < 4; ++k) {
+					int s = NOSIM[k];
+					std::string r = forked([&]() { return one(A, B, DOWN[s], REC[s], OPT[s], false, true); }, LIMIT_MS);
 					os << ' ' << (r == "@TIMEOUT" ? "T" : r == "@CRASH" ? "Ecrash" : r == "@EXC" ? "Enonstd" : r);
 				}
 			} else os << all;
